@@ -34,6 +34,16 @@ pub enum Step {
     /// the handle counts are read while `.1` read guards taken through the owner and one read guard
     /// of each of the first `.2` live subscribers are alive (nothing is pending: a quiescent moment)
     CountsGuarded(usize, u8, u8),
+    /// `.1` clones, `.2` subscribers and `.3` weak references of owner `.0` are created, the handle
+    /// counts are read (C19) and an `upgrade` is tried while they are all alive, then all of them are
+    /// dropped again and the counts are read once more (SharedObservable only). Sizes go far beyond
+    /// what the other steps reach (hundreds, sometimes 70 000: a counter narrower than `usize`).
+    Burst(usize, u32, u32, u32),
+    /// Async flavour only: a write guard is taken through owner `.0` and, while it is alive,
+    /// subscriber `.1` is polled once (flavour `.2`; it must report Pending) and the handle counts
+    /// are read; the guard is released unused, the counts are read again, and the subscriber is
+    /// polled again (it must be woken by the release if it has something to deliver — C16).
+    PollUnderWrite(usize, usize, u8),
     Get(usize),
     Read(usize),
     CloneOwner(usize),
@@ -83,6 +93,8 @@ impl Step {
             Guard(_, ops) => 7 + 64 * ops.len() as u64,
             ReadHold(_) => 8,
             CountsGuarded(_, a, b) => 35 + 64 * (*a as u64 * 4 + *b as u64),
+            Burst(_, a, b, c) => 36 + 64 * ((*a > 255) as u64 * 4 + (*b > 255) as u64 * 2 + (*c > 255) as u64),
+            PollUnderWrite(_, _, f) => 37 + 64 * *f as u64,
             Get(_) => 9,
             Read(_) => 10,
             CloneOwner(_) => 11,
